@@ -7,11 +7,11 @@ From SC Require Import Lib.Prelude Lib.Int Lib.Host Model.Rwa Model.RwaComplianc
   Run.C04Compliance Run.C04Identity Proofs.Rwa Proofs.RwaCompliance Proofs.RwaIdentity.
 
 (* the collaborators' answers during call [c] are those of the two other models *)
-Definition answers_of (c : call) (cf : ccfg) (cst : cstate) (deny : list addr) (w : iworld) : Prop :=
-  (forall a, idv_ok (c_orc c) a = is_ok (iverify_identity w a)) /\
-  (forall f t amt tok, Some (o_can_transfer (c_orc c)) =
+Definition answers_of (s : state) (c : call) (cf : ccfg) (cst : cstate) (deny : list addr) (w : iworld) : Prop :=
+  (forall a, idv_ok (eff_orc s c) a = is_ok (iverify_identity w a)) /\
+  (forall f t amt tok, Some (o_can_transfer (eff_orc s c)) =
      match snd (cstep cf cst (mkCC (CCanTransfer f t amt tok) [] deny)) with Ok r => r | Fail => None end) /\
-  (forall t amt tok, Some (o_can_create (c_orc c)) =
+  (forall t amt tok, Some (o_can_create (eff_orc s c)) =
      match snd (cstep cf cst (mkCC (CCanCreate t amt tok) [] deny)) with Ok r => r | Fail => None end).
 
 Lemma can_transfer_answer cf cst deny f t amt tok :
@@ -35,7 +35,7 @@ Qed.
 
 Theorem gates_composed : forall (hc : hostcfg) (s : state) (c : call) (s' : state) (r : ret)
     (cf : ccfg) (cst : cstate) (deny : list addr) (w : iworld),
-  answers_of c cf cst deny w ->
+  answers_of s c cf cst deny w ->
   step hc s c = (s', Ok r) ->
   match c_op c with
   | Transfer from to amt | TransferFrom _ from to amt =>
@@ -57,13 +57,46 @@ Proof.
   - destruct G as (A & B & C & D & E & F & K & _).
     rewrite HV, verify_iff in E, F. repeat split; auto; try lia.
     specialize (HT from to amt 0%N). rewrite can_transfer_answer in HT. injection HT as HT.
-    apply Hall. congruence.
+    apply Hall. rewrite <- HT. exact K.
   - destruct G as (A & B & C & D & E & F & K & _).
     rewrite HV, verify_iff in E, F. repeat split; auto; try lia.
     specialize (HT from to amt 0%N). rewrite can_transfer_answer in HT. injection HT as HT.
-    apply Hall. congruence.
+    apply Hall. rewrite <- HT. exact K.
   - destruct G as (A & E & K & _).
     rewrite HV, verify_iff in E. repeat split; auto.
     specialize (HC to amt 0%N). rewrite can_create_answer in HC. injection HC as HC.
-    apply Hall. congruence.
+    apply Hall. rewrite <- HC. exact K.
+Qed.
+
+(* the hypothesis of [gates_composed] is satisfiable for every registry state, compliance state and
+   set of refusing modules: the collaborator that answers exactly as the other two models compute *)
+Definition canonical_orc (w : iworld) (cst : cstate) (deny : list addr) : oracle :=
+  mkOracle (filter (fun a => is_ok (iverify_identity w a)) (map fst (w_ident w)))
+           (forallb (fun m => negb (mem m deny)) (mods cst HCanTransfer))
+           (forallb (fun m => negb (mem m deny)) (mods cst HCanCreate))
+           (w_recovered w).
+
+Lemma alist_get_in {V} a (l : list (addr * V)) v : alist_get a l = Some v -> In a (map fst l).
+Proof.
+  induction l as [|[k x] r IH]; cbn; [discriminate|]. destruct (N.eqb a k) eqn:E.
+  - apply N.eqb_eq in E. subst. auto.
+  - intros H. right. apply IH. exact H.
+Qed.
+
+Theorem answers_of_canonical : forall (s : state) (o : op) (au : list addr) (cf : ccfg) (cst : cstate)
+    (deny : list addr) (w : iworld),
+  answers_of s (mkCall o au (fun _ => canonical_orc w cst deny)) cf cst deny w.
+Proof.
+  intros s o au cf cst deny w. unfold answers_of, eff_orc. cbn [c_orc canonical_orc o_verified o_can_transfer o_can_create].
+  split; [|split].
+  - intros a. unfold idv_ok. cbn [o_verified].
+    destruct (is_ok (iverify_identity w a)) eqn:V.
+    + apply existsb_exists. exists a. split; [|apply N.eqb_refl]. apply filter_In. split; [|exact V].
+      unfold iverify_identity in V. destruct (alist_get a (w_ident w)) as [idn|] eqn:L; [|discriminate].
+      eapply alist_get_in; eauto.
+    + destruct (existsb (N.eqb a) _) eqn:X; [|reflexivity].
+      apply existsb_exists in X. destruct X as (x & Hx & E). apply N.eqb_eq in E. subst x.
+      apply filter_In in Hx. destruct Hx as [_ Hx]. congruence.
+  - intros f t amt tok. rewrite can_transfer_answer. reflexivity.
+  - intros t amt tok. rewrite can_create_answer. reflexivity.
 Qed.
